@@ -539,7 +539,7 @@ META = {
     "technique": "bounded-exhaustive enumeration of dump/dumps argument combinations against a reference envelope model; overlapping constructions "
     "(re-entrant through a serialisation method, and two threads under the schedule explorer at line granularity)",
     "rule": "full cartesian product of the argument alphabets (method x params x rpcid x version x methodresponse x notify x config), "
-    "each fed to the real dump and dumps; a case is non-trivial when the reference model defines its outcome "
+    "each fed to the real dump and dumps; round trips of every JSON value of depth 1 (thorough 2) and of dictionaries with 1-3 non-string and mixed-kind keys (int, float, bool, None, str) as parameter, result and Fault data; a case is non-trivial when the reference model defines its outcome "
     "(request/notification/result/error envelope or mandatory TypeError/ValueError); distinct by encoded argument tuple",
     "bounds": {
         "quick": {"methods": len(METHODS), "params": len(PARAMS), "rpcids": len(RPCIDS), "versions": len(VERSIONS), "roundtrip_depth": 1},
